@@ -451,9 +451,18 @@ impl Drop for LocalResource {
 }
 
 fn send_packet(data: &[u8], send_method: impl Fn(&[u8]) -> io::Result<usize>) -> SendStatus {
+    if data.len() > MAX_LOCAL_PAYLOAD_LEN {
+        return SendStatus::MaxPacketSizeExceeded
+    }
+
     loop {
         match send_method(data) {
             Ok(_) => break SendStatus::Sent,
+            // The OS reports a too big datagram as EMSGSIZE (it has no stable `ErrorKind`).
+            #[cfg(unix)]
+            Err(ref err) if err.raw_os_error() == Some(libc::EMSGSIZE) => {
+                break SendStatus::MaxPacketSizeExceeded
+            }
             // Avoid ICMP generated error to be logged
             Err(ref err) if err.kind() == ErrorKind::ConnectionRefused => {
                 break SendStatus::ResourceNotFound
